@@ -250,6 +250,49 @@ impl LefDecimal { fn from_str(s: &str) -> LefResult<LefDecimal>; }
 // data.rs: `LefPoint::new(x: impl Into<LefDecimal>, y: impl Into<LefDecimal>)`, at the type parse_point passes
 impl LefPoint { pub fn new(x: LefDecimal, y: LefDecimal) -> LefPoint { LefPoint { x, y } } }
 """
+LEFR2_PRELUDE = """
+// the token-level helpers and the number / point / identifier parsers of read.rs: their own ties are the family lef_parse
+// (Gen/KernelsLefReadGen.v); here they are external
+impl LefParser {
+    fn ctx_push(&mut self, c: LefParseContext);
+    fn ctx_pop(&mut self);
+    fn lex_peek_token(&self) -> Option<Token>;
+    fn txt(&self, tok: &Token) -> String;
+    fn advance(&mut self) -> LefResult<()>;
+    fn matches(&self, ttype: TokenType) -> bool;
+    fn expect(&mut self, ttype: TokenType) -> LefResult<Token>;
+    fn peek_key(&self) -> LefResult<LefKey>;
+    fn get_key(&mut self) -> LefResult<LefKey>;
+    fn expect_key(&mut self, key: LefKey) -> LefResult<()>;
+    fn parse_ident(&mut self) -> LefResult<String>;
+    fn parse_number(&mut self) -> LefResult<LefDecimal>;
+    fn parse_point(&mut self) -> LefResult<LefPoint>;
+    fn parse_density(&mut self) -> LefResult<Vec<LefDensityGeometries>>;
+}
+// data.rs: `LefDbuPerMicron::try_new` (rust_decimal: fract / trunc / mantissa)
+impl LefDbuPerMicron { fn try_new(x: LefDecimal) -> LefResult<LefDbuPerMicron>; }
+// read.rs: `fn parse_enum<T: EnumStr>(&mut self) -> LefResult<T>` (a name, upper-cased, through the enumstr! table of T), at each type it is called at
+impl LefParser {
+    fn parse_enum__LefAntennaModel(&mut self) -> LefResult<LefAntennaModel>;
+    fn parse_enum__LefBlockClassType(&mut self) -> LefResult<LefBlockClassType>;
+    fn parse_enum__LefClearanceStyle(&mut self) -> LefResult<LefClearanceStyle>;
+    fn parse_enum__LefCoreClassType(&mut self) -> LefResult<LefCoreClassType>;
+    fn parse_enum__LefDefSource(&mut self) -> LefResult<LefDefSource>;
+    fn parse_enum__LefEndCapClassType(&mut self) -> LefResult<LefEndCapClassType>;
+    fn parse_enum__LefMacroClassName(&mut self) -> LefResult<LefMacroClassName>;
+    fn parse_enum__LefOnOff(&mut self) -> LefResult<LefOnOff>;
+    fn parse_enum__LefOrient(&mut self) -> LefResult<LefOrient>;
+    fn parse_enum__LefPadClassType(&mut self) -> LefResult<LefPadClassType>;
+    fn parse_enum__LefPinShape(&mut self) -> LefResult<LefPinShape>;
+    fn parse_enum__LefPinUse(&mut self) -> LefResult<LefPinUse>;
+    fn parse_enum__LefPortClass(&mut self) -> LefResult<LefPortClass>;
+    fn parse_enum__LefPropertyDefinitionObjectType(&mut self) -> LefResult<LefPropertyDefinitionObjectType>;
+    fn parse_enum__LefSiteClass(&mut self) -> LefResult<LefSiteClass>;
+    fn parse_enum__LefSymmetry(&mut self) -> LefResult<LefSymmetry>;
+}
+// data.rs: `LefMask::new(mask: impl Into<LefDecimal>)`, at the type parse_geometry_mask passes
+impl LefMask { pub fn new(mask: LefDecimal) -> LefMask { LefMask { mask } } }
+"""
 GDSR_PRELUDE = """
 // byteorder::ReadBytesExt on `self.source` (byte-level IO: external)
 impl GdsReader { fn source_read_u16(&mut self) -> GdsResult<u16>; fn source_read_u8(&mut self) -> GdsResult<u8>; }
@@ -488,6 +531,31 @@ UNITS = [
                  ("lef_parse", "LefParser::parse_density")],
      "generic_inst": {}, "foreign": {"String", "LefDecimal"}, "aliases": {"str": "String"},
      "extern": {"LefParser::txt"},
+     "result_aliases": {"LefResult"}, "skip_recv": set()},
+    # lef21/src/read.rs, second part (families lef_parse2 ..): the statement parsers.  The helpers tied in the unit "lefr" are EXTERNAL here
+    {"name": "lefr2", "out": "KernelsLefRead2Gen.v", "self_field_ext": {"self.session.lef_version": ("session_lef_version", "LefDecimal")},
+     "consts": {"V5P4": "LefDecimal", "V5P6": "LefDecimal"}, "let_annot": True, "foreign_eq": True, "builder_err": True, "turbo_methods": {"parse_enum"}, "xops": True, "sets": True, "join": True, "strings": True, "builders": True, "fuel_ext": True,
+     "self_state": {"LefParser"}, "fail_methods": {"fail", "fail_msg"}, "recv_methods": {"self.ctx": "ctx_", "self.lex": "lex_"},
+     "files": [("lef21/src/read.rs", {"LefParser", "Token", "SourceLocation", "TokenType", "LefParseContext", "LefParseErrorType"}),
+               ("lef21/src/data.rs", {"LefPoint", "LefKey", "LefUnits", "LefSymmetry", "LefMacroClass", "LefMacroClassName", "LefPadClassType", "LefEndCapClassType",
+                                      "LefBlockClassType", "LefCoreClassType", "LefSite", "LefSiteClass", "LefProperty", "LefPinDirection", "LefMask", "LefStepPattern",
+                                      "LefShape", "LefGeometry", "Unsupported", "LefLayerGeometries", "LefLayerSpacing", "LefVia", "LefViaShape", "LefViaLayerGeometries", "LefPort", "LefPortClass",
+                                      "LefPropertyDefinition", "LefPropertyRange", "LefPropertyDefinitionObjectType", "LefPin", "LefPinUse", "LefPinShape", "LefAntennaModel", "LefPinAntennaAttr",
+                                      "LefMacro", "LefForeign", "LefOrient", "LefDefSource", "LefDensityGeometries", "LefDensityRectangle", "LefViaDef", "LefViaDefData", "LefFixedViaDef",
+                                      "LefGeneratedViaDef", "LefRowCol", "LefOffset", "LefLibrary", "LefExtension", "LefOnOff", "LefClearanceStyle"})],
+     "alias_only": set(), "prelude": LEFR2_PRELUDE,
+     "targets": [("lef_parse2", "LefParser::parse_units"), ("lef_parse2", "LefParser::parse_size"), ("lef_parse2", "LefParser::parse_symmetries"),
+                 ("lef_parse2", "LefParser::parse_macro_class"), ("lef_parse2", "LefParser::parse_site_def"), ("lef_parse2", "LefParser::parse_property"),
+                 ("lef_parse2", "LefParser::parse_pin_direction"), ("lef_parse2", "LefParser::parse_geometry_mask"), ("lef_parse2", "LefParser::parse_iterate"),
+                 ("lef_parse2", "LefParser::parse_step_pattern"), ("lef_parse2", "LefParser::parse_point_list"), ("lef_parse2", "LefParser::parse_geometry_tail"),
+                 ("lef_parse2", "LefParser::parse_geometry"),
+                 ("lef_parse3", "LefParser::parse_layer_geometries"), ("lef_parse3", "LefParser::parse_via_shape"), ("lef_parse3", "LefParser::parse_via_layer_geometries"),
+                 ("lef_parse3", "LefParser::parse_obstructions"), ("lef_parse3", "LefParser::parse_port"), ("lef_parse3", "LefParser::parse_property_definition_tail"),
+                 ("lef_parse3", "LefParser::parse_property_definitions"),
+                 ("lef_parse_lib", "LefParser::parse_pin"), ("lef_parse_macro", "LefParser::parse_macro")],
+     "generic_inst": {}, "foreign": {"String", "LefDecimal", "LefDbuPerMicron"}, "aliases": {"str": "String"},
+     "extern": {"LefParser::txt", "LefParser::advance", "LefParser::matches", "LefParser::expect", "LefParser::peek_key", "LefParser::get_key",
+                "LefParser::expect_key", "LefParser::parse_ident", "LefParser::parse_number", "LefParser::parse_point", "LefParser::parse_density"},
      "result_aliases": {"LefResult"}, "skip_recv": set()},
 ]
 
@@ -1251,6 +1319,13 @@ class FnGen:
         if k == "path":
             return self.ex_path(e, env)
         if k == "field":
+            sfe = self.unit.get("self_field_ext")
+            if sfe and self.mon_name is not None and "self" not in env and place_text(e) in sfe:
+                # monadic self: a field of the state that the unit keeps outside the generated record (`self.session.lef_version`), read by an external operation
+                nm_, tyt_ = sfe[place_text(e)]
+                ty_ = self.res(parse_type_text(tyt_), e)
+                self.tr.externs_used.setdefault("ext_self_%s" % nm_, ("M %s" % cty(ty_), "the field %s of the state, read" % place_text(e)))
+                return Val("M", "ext_self_%s" % nm_, ty_)
             b = self.ex(e.e, env)
             def build(ns):
                 ty = b.ty
@@ -1582,6 +1657,10 @@ class FnGen:
         self.err(node, "Default::default() at the type %r" % (ty,))
 
     def fail_val(self):
+        if self.unit.get("builder_err") and self.fn.name.endswith("Builder::build") and self.fn.fname.startswith("<derive(Builder)"):
+            # derive_builder: `build()` on an uninitialised field is an error of its own (no `self.fail`, no parser state in it)
+            self.tr.need_build_err = True
+            return Val("M", "(k_build_err _)", ("res", None), fail=True)
         return Val("M", "(k_fail xops)", ("res", None), fail=True)
 
     def variant_value(self, en, vn, given, written_order, env, node):
@@ -1780,6 +1859,11 @@ class FnGen:
                          "<=": "(negb (%s %s %s))" % (nm_, ns[1], ns[0]), ">=": "(negb (%s %s %s))" % (nm_, ns[0], ns[1])}[op]
                     return Val("P", t, ("bool",))
                 return self.seq([l, r], build_f)
+            if self.unit.get("foreign_eq") and ty is not None and ty[0] == "foreign" and op in ("==", "!="):
+                # PartialEq of a type of another crate (`txt == ident` on strings): the external equality test
+                nm_ = "ext_%s_eq" % ty[1]
+                self.tr.externs_used.setdefault(nm_, ("%s -> %s -> bool" % (cty(ty), cty(ty)), "impl PartialEq for %s: `==`" % ty[1]))
+                return self.seq([l, r], lambda ns: Val("P", ("(%s %s %s)" if op == "==" else "(negb (%s %s %s))") % (nm_, ns[0], ns[1]), ("bool",)))
             if self.unit.get("strings") and ty is not None and ty[0] == "opt" and op in ("==", "!=") and (e.l.kind == "path" and e.l.segs == ["None"] or e.r.kind == "path" and e.r.segs == ["None"]):
                 other = l if (e.r.kind == "path" and e.r.segs == ["None"]) else r
                 tf = ("false", "true") if op == "==" else ("true", "false")
@@ -2052,6 +2136,10 @@ class FnGen:
         if rm and place_text(e.recv) in rm:
             # `self.source.read_u8()`: a method of a field whose type is outside the subset is a method of self, declared in the prelude
             e = N("mcall", e.line, recv=N("path", e.line, segs=["self"]), name=rm[place_text(e.recv)] + name, args=e.args, turbo=e.turbo)
+            name = e.name
+        if (getattr(e, "turbo_ty", None) is not None and name in self.unit.get("turbo_methods", ()) and e.recv.kind == "path" and e.recv.segs == ["self"]):
+            # `self.parse_enum::<T>()`: a generic method read at each type it is called at, declared in the prelude as `parse_enum__T`
+            e = N("mcall", e.line, recv=e.recv, name="%s__%s" % (name, e.turbo_ty), args=e.args, turbo=False)
             name = e.name
         if self.x and name in self.fail_methods and e.recv.kind == "path" and e.recv.segs == ["self"]:
             return self.fail_val()
@@ -2381,7 +2469,9 @@ class FnGen:
             self.hint_ty = None
             self.arr_hint = None
             if expect is not None:
-                self.same(expect, v.ty, s, "let")
+                t_ = self.same(expect, v.ty, s, "let")
+                if self.unit.get("let_annot") and v.ty is not None and t_ is not None and v.ty[0] in ("opt", "vec") and v.ty[1] is None:
+                    v = Val(v.kind, v.term, t_)       # `let x: Option<T> = None;`: the annotation gives the element type
             if v.ty is None:
                 if self.x:
                     return v       # `let x = <something that always fails / panics>`: nothing after it runs
@@ -2392,6 +2482,14 @@ class FnGen:
                 t2 = self.infer_from_assign(s.pat.name, rest, env)
                 if t2 is not None and t2[0] == v.ty[0]:
                     v = Val(v.kind, v.term, t2)
+                elif t2 is None and v.ty[0] == "vec" and self.unit.get("let_annot"):
+                    t3 = self.infer_from_push(s.pat.name, rest, env)
+                    if t3 is not None:
+                        v = Val(v.kind, v.term, ("vec", t3))
+                    else:
+                        t4 = self.infer_from_self_call(s.pat.name, rest)
+                        if t4 is not None and t4[0] == "vec":
+                            v = Val(v.kind, v.term, t4)
             if self.x and v.ty[0] in ("opt", "vec") and v.ty[1] is None:
                 self.err(s, "the type of this `let` cannot be determined here (annotate it)")
             if v.ty[0] == "tryres":
@@ -2520,6 +2618,70 @@ class FnGen:
                         t = self.ex(n.rhs, env).ty
                     except Unsupported:
                         t = None
+                    if t is not None:
+                        found.append(t)
+                    return
+                for k_, v_ in n.__dict__.items():
+                    if k_ not in ("kind", "line"):
+                        walk(v_)
+            elif isinstance(n, (list, tuple)):
+                for x in n:
+                    walk(x)
+        walk(rest)
+        return found[0] if found else None
+
+    def infer_from_self_call(self, name, rest):
+        """the declared value type of the method in the first `name = self.m(..)?;` of rest (monadic self), or None"""
+        found = []
+        def walk(n):
+            if found:
+                return
+            if isinstance(n, N):
+                if n.kind == "assign" and n.op == "=" and n.lhs.kind == "path" and n.lhs.segs == [name]:
+                    r = n.rhs
+                    if r.kind == "try":
+                        r = r.e
+                    if r.kind == "mcall" and r.recv.kind == "path" and r.recv.segs == ["self"] and self.mon_name is not None:
+                        f = self.w.fns.get("%s::%s" % (self.mon_name, r.name))
+                        if f is not None and not f.clash:
+                            try:
+                                t = self.tr.signature(f)["ret"]
+                            except Unsupported:
+                                t = None
+                            if t is not None and t[0] == "res":
+                                t = t[1]
+                            if t is not None:
+                                found.append(t)
+                    return
+                for k_, v_ in n.__dict__.items():
+                    if k_ not in ("kind", "line"):
+                        walk(v_)
+            elif isinstance(n, (list, tuple)):
+                for x in n:
+                    walk(x)
+        walk(rest)
+        return found[0] if found else None
+
+    def infer_from_push(self, name, rest, env):
+        """the element type of the local vector `name` from the first `name.push(e)` in rest: a struct literal names its type, any other
+        argument is translated in the environment of the `let` (a call like `self.parse_x()?`), or None"""
+        found = []
+        def walk(n):
+            if found:
+                return
+            if isinstance(n, N):
+                if n.kind == "mcall" and n.name == "push" and n.recv.kind == "path" and n.recv.segs == [name] and len(n.args) == 1:
+                    a = n.args[0]
+                    t = None
+                    if a.kind == "structlit" and len(a.segs) == 1 and a.name in self.w.structs:
+                        t = ("struct", a.name)
+                    else:
+                        try:
+                            t = self.ex(a, env).ty
+                        except Unsupported:
+                            t = None
+                        if t is not None and t[0] == "res":
+                            t = t[1]
                     if t is not None:
                         found.append(t)
                     return
@@ -4190,6 +4352,8 @@ def run_unit(unit):
         if getattr(tr, "self_getput", None) is not None:
             st_ = cty(tr.self_getput)
             L += ["(* monadic self: the state of the effect, read and written *)", "Variable ext_self_get : M %s." % st_, "Variable ext_self_put : %s -> M unit." % st_, ""]
+        if getattr(tr, "need_build_err", False):
+            L += ["(* derive_builder: `build()` with a required field not set *)", "Variable k_build_err : forall A : Type, M A.", ""]
         if getattr(tr, "need_nofuel", False):
             L += ["(* what running out of fuel in a `loop` / `while` is *)", "Variable k_nofuel : forall A : Type, M A.", ""]
         for name in sorted(tr.externs_used):
